@@ -1,7 +1,7 @@
 (* C16 — lemmas: relative DID URLs, verification methods, fixed-width curve points *)
 From Coq Require Import List String Ascii ZArith NArith Bool Lia.
 Import ListNotations.
-From VF Require Import C16.Model C16.Proofs.
+From VF Require Import C16.Model C16.Proofs C16.ProofsF C16.ProofsB1.
 Open Scope string_scope.
 Open Scope list_scope.
 
@@ -24,7 +24,7 @@ Lemma abs_id_text : forall w did base m v,
   dec_vm w did base m = Some v -> abs_id did base (vm_id_text did base v) = m_id v.
 Proof.
   intros w did base m v H. unfold dec_vm in H.
-  destruct (dec_key _ m) as [k|]; [|discriminate].
+  destruct (dec_key _ _ m) as [k|]; [|discriminate].
   destruct (starts_hash (str_entry (lookup m "id"))) eqn:Hh; inversion H; subst; clear H;
     unfold vm_id_text, abs_id; cbn [m_rel m_id].
   - rewrite make_rel_resolve, Hh. reflexivity.
@@ -45,22 +45,49 @@ Qed.
 Definition key_nonempty (v : vmeth) : bool :=
   match snd (m_key v) with JStr s => negb (s =? "") | _ => true end.
 
+Lemma filter_filter_same : forall {A} (p : A -> bool) l, filter p (filter p l) = filter p l.
+Proof. induction l as [|a r IH]; cbn; [reflexivity|]. destruct (p a) eqn:E; cbn; [rewrite E, IH|]; auto. Qed.
+
+Lemma str_entry_f64 : forall o, str_entry (option_map f64j o) = str_entry o.
+Proof. intros [[]|]; reflexivity. Qed.
+
+Lemma lookup_kept : forall keep (jw : obj) k, mem k keep = true ->
+  lookup (f64o (filter (fun kv => mem (fst kv) keep) jw)) k = option_map f64j (lookup jw k).
+Proof. intros keep jw k H. rewrite lookup_f64o, (lookup_filter (fun x => mem x keep)), H. reflexivity. Qed.
+
+Lemma jwk_custom_type_out : forall jw, jwk_custom_type (jwk_out jw) = jwk_custom_type jw.
+Proof.
+  intros jw. unfold jwk_out.
+  assert (Hc: forall keep, mem "crv" keep = true -> mem "alg" keep = true ->
+            jwk_custom_type (f64o (filter (fun kv => mem (fst kv) keep) jw)) = jwk_custom_type jw).
+  { intros keep H1 H2. unfold jwk_custom_type. rewrite !(lookup_kept keep) by assumption. rewrite !str_entry_f64. reflexivity. }
+  destruct (jwk_custom_type jw); apply Hc; reflexivity.
+Qed.
+
+Lemma jwk_out_idem : forall jw, jwk_out (jwk_out jw) = jwk_out jw.
+Proof.
+  intros jw. unfold jwk_out at 1. rewrite jwk_custom_type_out. unfold jwk_out.
+  set (keep := if jwk_custom_type jw then jwk_custom_members else jose_members).
+  rewrite <- (f64o_filter (fun x => mem x keep)). rewrite filter_filter_same. apply f64o_idem.
+Qed.
+
 Lemma dec_key_again : forall ty m k,
-  dec_key ty m = Some k ->
+  dec_key Fixed ty m = Some k ->
   match snd k with JStr s => negb (s =? "") | _ => true end = true ->
-  forall id ctrl, dec_key ty [("id", id); ("type", JStr ty); ("controller", ctrl); k] = Some k.
+  forall id ctrl, dec_key Fixed ty [("id", id); ("type", JStr ty); ("controller", ctrl); k] = Some k.
 Proof.
   intros ty m k H Hne id ctrl. unfold dec_key in H.
   destruct (negb (str_entry (lookup m "publicKeyBase58") =? "")) eqn:Hb.
-  - destruct (ty =? ed2020) eqn:Ht; [discriminate|]. inversion H; subst; clear H.
-    unfold dec_key. cbn [lookup String.eqb Ascii.eqb Bool.eqb str_entry]. cbn. rewrite Hb, Ht. reflexivity.
+  - destruct (mb_type ty) eqn:Ht; inversion H; subst; clear H.
+    + unfold dec_key. cbn [lookup String.eqb Ascii.eqb Bool.eqb str_entry fst snd]. cbn -[mb_type]. rewrite Ht. reflexivity.
+    + unfold dec_key. cbn [lookup String.eqb Ascii.eqb Bool.eqb str_entry fst snd]. cbn -[mb_type]. rewrite Hb, Ht. reflexivity.
   - destruct (str_entry (lookup m "publicKeyMultibase")) as [|c rest] eqn:Hm.
     + destruct (lookup m "publicKeyJwk") as [[]|] eqn:Hj; try discriminate. inversion H; subst; clear H.
-      unfold dec_key. cbn. reflexivity.
-    + destruct (Ascii.eqb c "z") eqn:Hz; [|discriminate].
-      destruct (ty =? ed2020) eqn:Ht; inversion H; subst; clear H.
-      * unfold dec_key. cbn. rewrite Hz, Ht. reflexivity.
-      * cbn in Hne. unfold dec_key. cbn. rewrite Hne, Ht. reflexivity.
+      unfold dec_key. cbn -[mb_type jwk_out]. rewrite jwk_out_idem. reflexivity.
+    + destruct (Ascii.eqb c zchar) eqn:Hz; [|discriminate].
+      destruct (mb_type ty) eqn:Ht; inversion H; subst; clear H.
+      * unfold dec_key. cbn -[mb_type]. rewrite Hz, Ht. reflexivity.
+      * cbn in Hne. unfold dec_key. cbn -[mb_type]. rewrite Hne, Ht. reflexivity.
 Qed.
 
 Lemma before_hash_idem_ctrl : forall c x, (if (if c =? "" then x else c) =? "" then x else (if c =? "" then x else c)) = (if c =? "" then x else c).
@@ -71,7 +98,7 @@ Lemma vm_reparse : forall did base m v,
   match enc_vm did base v with JObj m' => dec_vm Fixed did base m' = Some v | _ => False end.
 Proof.
   intros did base m v H Hk. unfold dec_vm in H.
-  destruct (dec_key (str_entry (lookup m "type")) m) as [k|] eqn:Hkey; [|discriminate].
+  destruct (dec_key Fixed (str_entry (lookup m "type")) m) as [k|] eqn:Hkey; [|discriminate].
   destruct (starts_hash (str_entry (lookup m "id"))) eqn:Hh; inversion H; subst; clear H;
     unfold enc_vm, vm_id_text; cbn [m_rel m_id m_type m_ctrl m_key]; unfold key_nonempty in Hk; cbn [m_key] in Hk.
   - rewrite make_rel_resolve. unfold dec_vm.
@@ -129,4 +156,13 @@ Proof.
   - apply didkey_roundtrip_table; assumption.
   - apply ec_compress_length.
   - cbn [ec_compress tl]. apply be_value_be_bytes. exact Hx.
+Qed.
+
+(* the members of a JWK after the jwk package has read and written it *)
+Lemma jwk_out_lookup : forall jw k,
+  lookup (jwk_out jw) k =
+  if mem k (if jwk_custom_type jw then jwk_custom_members else jose_members) then option_map f64j (lookup jw k) else None.
+Proof.
+  intros jw k. unfold jwk_out. set (keep := if jwk_custom_type jw then jwk_custom_members else jose_members).
+  rewrite lookup_f64o, (lookup_filter (fun x => mem x keep)). destruct (mem k keep); reflexivity.
 Qed.
